@@ -15,8 +15,17 @@ Inductive eobs9 :=
 | ECtx                 (* context.Canceled / DeadlineExceeded *)
 | EOther.              (* anything else, a panic, or Head never returned *)
 
+(** one arrived answer: the clock reading of the per-peer goroutine when it
+    handled the answer (header.Verify reads time.Now per call), the frames the
+    peer wrote to the stream in order (the client reads at most Amount = 1 of
+    them), and the type-level verdict scripted for the header of the first frame *)
+Record tans := TAns { a_time : Z; a_frames : list resp; a_tv : tvres }.
+
+Definition a_resp (a : tans) : resp := head_frame (a_frames a).
+
 Record case09 := Case09 {
-  k_now : Z; k_drift : Z;
+  k_now : Z;                      (* the clock when Head was called (no answer is older) *)
+  k_drift : Z;
   k_want : option N;              (* ClientParameters.chainID, None = not configured *)
   k_t : hdr;                      (* WithTrustedHead(t); hdr_nil = option not given *)
   k_ntrusted : nat;               (* trusted peers handed to NewExchange *)
@@ -25,22 +34,22 @@ Record case09 := Case09 {
   k_n : nat;                      (* observed: number of peers that received a request *)
   k_pool : bool;                  (* observed: the asked peers are exactly the trusted peers (no trusted head)
                                      resp. distinct tracked peers (with one; trusted peers if none is tracked) *)
-  k_arr : list (resp * tvres);    (* the answers in arrival order (peers that never answer are absent),
-                                     each with the type-level verdict scripted for its header *)
+  k_arr : list tans;              (* the answers in arrival order (peers that never answer are absent) *)
   k_steps : nat;                  (* observed: answers released when Head returned *)
   k_hdr : option (N * N);         (* observed: height and hash of the returned header; None = zero header *)
   k_err : eobs9 }.                (* observed *)
 
 (** ** running the model on a case *)
 
-Definition tv_tab (l : list (resp * tvres)) (_ u : hdr) : tvres :=
-  match find (fun p => match fst p with RGot h => (h_id h =? h_id u)%N | RFail => false end) l with
-  | Some p => snd p
+Definition tv_tab (l : list tans) (_ u : hdr) : tvres :=
+  match find (fun p => match a_resp p with RGot h => (h_id h =? h_id u)%N | RFail => false end) l with
+  | Some p => a_tv p
   | None => TVOk
   end.
 
 Definition model09 (c : case09) : nat * list outcome :=
-  Head (k_now c) (k_drift c) (tv_tab (k_arr c)) (k_want c) (k_t c) (k_n c) (map fst (k_arr c)).
+  HeadF (k_drift c) (tv_tab (k_arr c)) (k_want c) (k_t c) (k_n c)
+        (map (fun a => (a_time a, a_frames a)) (k_arr c)).
 
 Definition sent_eqb (a b : sentinel) : bool :=
   match a, b with
@@ -92,14 +101,15 @@ Definition tvres_eqb (a b : tvres) : bool :=
   end.
 
 (** a well-formed case: a hash stands for one header with one scripted verdict *)
-Definition same_id_same (x y : resp * tvres) : bool :=
-  match fst x, fst y with
-  | RGot h, RGot h' => if (h_id h =? h_id h')%N then hdr_eqb h h' && tvres_eqb (snd x) (snd y) else true
+Definition same_id_same (x y : tans) : bool :=
+  match a_resp x, a_resp y with
+  | RGot h, RGot h' => if (h_id h =? h_id h')%N then hdr_eqb h h' && tvres_eqb (a_tv x) (a_tv y) else true
   | _, _ => true
   end.
 
 Definition wf09 (c : case09) : bool :=
-  forallb (fun x => forallb (same_id_same x) (k_arr c)) (k_arr c).
+  forallb (fun x => forallb (same_id_same x) (k_arr c)) (k_arr c) &&
+  forallb (fun x => (k_now c <=? a_time x)%Z) (k_arr c).
 
 Definition agree09 (c : case09) : bool :=
   wf09 c &&
@@ -115,15 +125,18 @@ Definition agree09 (c : case09) : bool :=
 Definition q_spec (n : nat) : nat := if n <=? 2 then n else n - n / 3.
 
 (** is the answer a usable header, and with which verdict of its own? (each
-    answer is judged with the verdict scripted for IT, not through a table) *)
-Definition adm9 (c : case09) (r : resp * tvres) : ans :=
-  match fst r with
-  | RFail => NoHdr
-  | RGot h =>
+    answer is judged with the verdict scripted for IT, not through a table, at
+    ITS OWN arrival time, and by its FIRST frame only: whatever else the peer
+    wrote is never read) *)
+Definition adm9 (c : case09) (r : tans) : ans :=
+  match a_frames r with
+  | [] => NoHdr
+  | RFail :: _ => NoHdr
+  | RGot h :: _ =>
     if negb (h_ok h) then NoHdr else
     if negb (chain_ok (k_want c) h) then NoHdr else
     if h_nil (k_t c) then AHdr h None else
-    match Verify (k_now c) (k_drift c) (fun _ _ => snd r) (k_t c) h with
+    match Verify (a_time r) (k_drift c) (fun _ _ => a_tv r) (k_t c) h with
     | None => AHdr h None
     | Some v => if ve_soft v then AHdr h (Some v) else NoHdr
     end
@@ -218,49 +231,56 @@ Section ok.
 Variable c : case09.
 Hypothesis Hwf : wf09 c = true.
 
-Let arrM := map (answer (k_now c) (k_drift c) (tv_tab (k_arr c)) (k_want c) (k_t c)) (map fst (k_arr c)).
+Let timed := map (fun a => (a_time a, a_resp a)) (k_arr c).
+Let arrM := map (answer_at (k_drift c) (tv_tab (k_arr c)) (k_want c) (k_t c)) timed.
+
+Lemma model09_eq : model09 c = head_run (k_n c) arrM.
+Proof. unfold model09, HeadF, HeadT, arrM, timed. rewrite !map_map. reflexivity. Qed.
 
 Lemma wf_pair x y : In x (k_arr c) -> In y (k_arr c) -> same_id_same x y = true.
 Proof.
-  intros Hx Hy. unfold wf09 in Hwf. rewrite forallb_forall in Hwf. specialize (Hwf x Hx).
-  rewrite forallb_forall in Hwf. exact (Hwf y Hy).
+  intros Hx Hy. unfold wf09 in Hwf. apply andb_prop in Hwf as [Hw _]. rewrite forallb_forall in Hw. specialize (Hw x Hx).
+  rewrite forallb_forall in Hw. exact (Hw y Hy).
 Qed.
 
-Lemma tv_tab_own h tvr t0 : In (RGot h, tvr) (k_arr c) -> tv_tab (k_arr c) t0 h = tvr.
+Lemma tv_tab_own h a t0 : In a (k_arr c) -> a_resp a = RGot h -> tv_tab (k_arr c) t0 h = a_tv a.
 Proof.
-  intros Hin. unfold tv_tab.
+  intros Hin Ea. unfold tv_tab.
   destruct (find _ (k_arr c)) as [p|] eqn:Ef.
-  - apply find_some in Ef as (Hp & Hid). destruct p as [r tvr']. cbn [fst snd] in *.
-    destruct r as [|h']; [discriminate|]. apply N.eqb_eq in Hid.
-    pose proof (wf_pair (RGot h', tvr') (RGot h, tvr) Hp Hin) as Hs. unfold same_id_same in Hs. cbn [fst snd] in Hs.
+  - apply find_some in Ef as (Hp & Hid).
+    destruct (a_resp p) as [|h'] eqn:Ep; [discriminate|]. apply N.eqb_eq in Hid.
+    pose proof (wf_pair p a Hp Hin) as Hs. unfold same_id_same in Hs. rewrite Ep, Ea in Hs.
     rewrite Hid, N.eqb_refl in Hs. apply andb_prop in Hs as [_ Hs]. now apply tvres_eqb_eq in Hs.
-  - exfalso. pose proof (find_none _ _ Ef (RGot h, tvr) Hin) as Hx. cbn [fst] in Hx. rewrite N.eqb_refl in Hx. discriminate.
+  - exfalso. pose proof (find_none _ _ Ef a Hin) as Hx. cbn beta in Hx. rewrite Ea, N.eqb_refl in Hx. discriminate.
 Qed.
 
 Lemma adm9_model : map (adm9 c) (k_arr c) = arrM.
 Proof.
-  unfold arrM. rewrite map_map. apply map_ext_in. intros [r tvr] Hin. cbn [fst snd].
-  unfold adm9, answer, request. cbn [fst snd]. destruct r as [|h]; [reflexivity|].
+  unfold arrM, timed. rewrite map_map. apply map_ext_in. intros a Hin.
+  unfold answer_at. cbn [fst snd].
+  pose proof (tv_tab_own) as Hown. specialize (fun h => Hown h a (k_t c) Hin).
+  unfold adm9, a_resp in *. destruct (a_frames a) as [|[|h] rest]; [reflexivity | reflexivity |].
+  rewrite head_frame_cons in *. unfold answer, request.
   destruct (h_ok h); cbn [negb andb]; [|reflexivity].
   destruct (chain_ok (k_want c) h); cbn [negb]; [|reflexivity].
   destruct (h_nil (k_t c)); [reflexivity|].
-  unfold Verify. rewrite (tv_tab_own h tvr (k_t c) Hin). reflexivity.
+  unfold Verify. rewrite (Hown h eq_refl). reflexivity.
 Qed.
 
-Lemma wf_hash_inj : hash_inj (map fst (k_arr c)).
+Lemma wf_hash_inj : hash_inj (map snd timed).
 Proof.
-  intros h h' H1 H2 Eid. apply in_map_iff in H1 as ([r1 t1] & E1 & H1). apply in_map_iff in H2 as ([r2 t2] & E2 & H2).
-  cbn [fst] in E1, E2. subst r1 r2.
-  pose proof (wf_pair _ _ H1 H2) as Hs. unfold same_id_same in Hs. cbn [fst snd] in Hs.
+  intros h h' H1 H2 Eid. unfold timed in H1, H2. rewrite map_map in H1, H2. cbn [snd] in H1, H2.
+  apply in_map_iff in H1 as (a1 & E1 & H1). apply in_map_iff in H2 as (a2 & E2 & H2).
+  pose proof (wf_pair _ _ H1 H2) as Hs. unfold same_id_same in Hs. rewrite E1, E2 in Hs.
   rewrite Eid, N.eqb_refl in Hs. apply andb_prop in Hs as [Hs _]. now apply hdr_eqb_eq.
 Qed.
 
 Lemma arrM_consistent : consistent arrM.
-Proof. apply answers_consistent. exact wf_hash_inj. Qed.
+Proof. apply answers_consistent_t. exact wf_hash_inj. Qed.
 
 Lemma arrM_soft h v : In (AHdr h (Some v)) arrM -> ve_soft v = true.
 Proof.
-  intros Hin. apply in_map_answer in Hin as (_ & Ha). apply answer_AHdr in Ha as (_ & _ & _ & H1 & H0).
+  intros Hin. apply in_map_answer_at in Hin as (now & _ & Ha). apply answer_AHdr in Ha as (_ & _ & _ & H1 & H0).
   destruct (h_nil (k_t c)) eqn:Ht; [specialize (H1 eq_refl); discriminate|]. exact (proj2 (H0 eq_refl)).
 Qed.
 
@@ -286,9 +306,9 @@ Proof.
   cbn [k_arr k_n k_steps k_hdr k_err set_obs].
   rewrite adm9_set_obs, adm9_model, q_spec_eq.
   change (asked_ok (set_obs (fst (model09 c)) (obs_of o))) with (asked_ok c). rewrite Hasked. cbn [andb].
-  assert (HlenM : length arrM <= k_n c) by (unfold arrM; now rewrite !map_length).
+  assert (HlenM : length arrM <= k_n c) by (unfold arrM, timed; now rewrite !map_length).
   destruct (Nat.leb_spec (length arrM) (k_n c)) as [_|]; [cbn [andb]|lia].
-  unfold model09, Head in *. fold arrM in Hin |- *.
+  rewrite model09_eq in Hin |- *.
   pose proof arrM_consistent as Hc.
   destruct (quorum_or_not (min_resp (k_n c)) arrM) as [Hnq|Hhq].
   - rewrite (head_run_no_quorum _ _ HlenM Hnq) in Hin |- *. cbn [fst snd] in Hin |- *.
